@@ -42,6 +42,8 @@ class SgxDevice(LedgerDevice):
         cfg = self.cfg
         try:
             if ins == INS_MODE:
+                if cfg.get("mode_error"):
+                    raise _SW(cfg["mode_error"])
                 if self.locked:
                     return (bytes([CLA, cfg.get("mode_byte", MODE_BOOTLOADER)]), SW_OK)
                 return (bytes([CLA, cfg.get("mode_byte_unlocked", MODE_SIGNER)]), SW_OK)
